@@ -229,4 +229,57 @@ def unit3Calls : List (String × String × String × String) := [
   ("EffectsLayer", "write", "write_padding", "fp, written, 4")
 ]
 
+/-! ### unit 4: patterns.py -/
+
+def colorModeIndexed : Nat := 2
+def patternConditions : List (String × String × String) := [
+  ("Pattern", "read", "image_mode == ColorMode.INDEXED"),
+  ("Pattern", "write", "self.color_table"),
+  ("VirtualMemoryArray", "read", "is_written == 0; length == 0"),
+  ("VirtualMemoryArray", "write", "self.is_written == 0; self.depth is None")
+]
+def unit4Registry : List (List UInt8 × String) := [
+  ([80, 97, 116, 50], "Patterns"),
+  ([80, 97, 116, 51], "Patterns"),
+  ([80, 97, 116, 116], "Patterns")
+]
+def unit4Calls : List (String × String × String × String) := [
+  ("Patterns", "read", "is_readable", "fp, 4"),
+  ("Patterns", "read", "read_length_block", "fp, padding=4"),
+  ("Patterns", "write", "write_length_block", "fp, item.write, padding=4"),
+  ("Pattern", "read", "read_fmt", "'I', fp"),
+  ("Pattern", "read", "read_fmt", "'I', fp"),
+  ("Pattern", "read", "read_fmt", "'2h', fp"),
+  ("Pattern", "read", "read_unicode_string", "fp"),
+  ("Pattern", "read", "read_pascal_string", "fp, encoding='ascii', padding=1"),
+  ("Pattern", "read", "read_fmt", "'3B', fp"),
+  ("Pattern", "read", "read_fmt", "'4x', fp"),
+  ("Pattern", "write", "write_fmt", "fp, '2I', self.version, self.image_mode.value"),
+  ("Pattern", "write", "write_fmt", "fp, '2h', *self.point"),
+  ("Pattern", "write", "write_unicode_string", "fp, self.name"),
+  ("Pattern", "write", "write_pascal_string", "fp, self.pattern_id, encoding='ascii', padding=1"),
+  ("Pattern", "write", "write_fmt", "fp, '3B', *row"),
+  ("Pattern", "write", "write_fmt", "fp, '4x'"),
+  ("VirtualMemoryArrayList", "read", "read_fmt", "'I', fp"),
+  ("VirtualMemoryArrayList", "read", "read_length_block", "fp"),
+  ("VirtualMemoryArrayList", "read", "read_fmt", "'4I', f"),
+  ("VirtualMemoryArrayList", "read", "read_fmt", "'I', f"),
+  ("VirtualMemoryArrayList", "write", "write_fmt", "fp, 'I', self.version"),
+  ("VirtualMemoryArrayList", "write", "write_length_block", "fp, lambda f: self._write_body(f)"),
+  ("VirtualMemoryArrayList", "_write_body", "write_fmt", "fp, '4I', *self.rectangle"),
+  ("VirtualMemoryArrayList", "_write_body", "write_fmt", "fp, 'I', len(self.channels) - 2"),
+  ("VirtualMemoryArray", "read", "read_fmt", "'I', fp"),
+  ("VirtualMemoryArray", "read", "read_fmt", "'I', fp"),
+  ("VirtualMemoryArray", "read", "read_fmt", "'I', fp"),
+  ("VirtualMemoryArray", "read", "read_fmt", "'4I', fp"),
+  ("VirtualMemoryArray", "read", "read_fmt", "'HB', fp"),
+  ("VirtualMemoryArray", "write", "write_fmt", "fp, 'I', self.is_written"),
+  ("VirtualMemoryArray", "write", "write_fmt", "fp, 'I', 0"),
+  ("VirtualMemoryArray", "write", "write_length_block", "fp, lambda f: self._write_body(f)"),
+  ("VirtualMemoryArray", "_write_body", "write_fmt", "fp, 'I', self.depth"),
+  ("VirtualMemoryArray", "_write_body", "write_fmt", "fp, '4I', *self.rectangle"),
+  ("VirtualMemoryArray", "_write_body", "write_fmt", "fp, 'HB', self.pixel_depth, self.compression.value"),
+  ("VirtualMemoryArray", "_write_body", "write_bytes", "fp, self.data")
+]
+
 end PsdVerif.Payload.Tables
